@@ -56,6 +56,19 @@ Theorem C17_contextual_cascade : forall vs p n, nodup_keys vs = true ->
 Proof. exact contextual_cascade. Qed.
 Print Assumptions C17_contextual_cascade.
 
+(* view_options: dict-valued options (nested to any depth) are deep-merged, key by key; values are immutable in the
+   model, so an inner scope can never rewrite the outer scope's options or the caller's argument *)
+Theorem C17_view_options_deep_merge : forall b a n, nodup_keys b = true ->
+  dict_get n (dict_merge a b) = merge_rule (dict_get n a) (dict_get n b).
+Proof. exact view_options_deep_merge. Qed.
+Print Assumptions C17_view_options_deep_merge.
+
+Theorem C17_deep_merge_recursion :
+  (forall od nd, atom_merge (AD od) (AD nd) = AD (dict_merge od nd)) /\
+  (forall o n, (forall d, n <> AD d) \/ (forall d, o <> AD d) -> atom_merge o n = n).
+Proof. exact (conj atom_merge_dicts atom_merge_replace). Qed.
+Print Assumptions C17_deep_merge_recursion.
+
 (* the loops REGENERATED from contextual.py and class_detour.py compute exactly these rules *)
 Theorem C17_contextual_generated_is_cascade : forall vs l p, tl_get k_contextual v_empty_dict l = VD p ->
   contextual_scope_enter (VD vs) l =
